@@ -319,6 +319,14 @@ def _struct(repo, col):
                       and a.args[0].pretty() == "self.transform" and a.args[1].op == "param" and a.args[1].name == arg
                       and b.op == "param" and b.name == arg)
                 detail = r.short()
+        if not ok and len(ex.returns) == 1:
+            r = ex.returns[0]
+            # arithmetic blending  m * f(v) + ~m * v  evaluates f on every entry and multiplies by 0:
+            # NaN/inf of the inner transform outside its range leak into the untouched entries
+            if r.op == "binop" and r.name == "+" and all(x.op == "binop" and x.name == "*" for x in r.args) and \
+                    any(T.find(x, lambda y: y.op == "attr" and y.name == "mask") is not None for x in r.args):
+                detail = ("an arithmetic blend `mask * transform(v) + ~mask * v`: the inner transform is evaluated on the "
+                          "untouched entries too and 0 * NaN = NaN, so values outside its range are not passed through unchanged")
         col.add(R, fi, f"MaskedTransform.{name}", "DISCHARGED" if ok else ("VIOLATED" if detail else "UNDECIDED"),
                 f"where(self.mask, self.transform.{meth}(v), v): same mask both ways, untouched value elsewhere" if ok
                 else f"MaskedTransform.{name} returns {detail or 'an unrecognised form'}", node=fi.node)
